@@ -357,5 +357,50 @@ def install_overrides():
             return unique_rows_ref(ar, **kw)
         return np.unique(ar, **kw)
 
+    def _isscalar(x):
+        # a ring element stands for a float scalar (A1)
+        return isinstance(x, LP) or np.isscalar(x)
+
     for tgt in (symnp._OVERRIDES, symnp.P.__dict__["_o"]):
         tgt.setdefault("unique", _unique)
+        tgt.setdefault("isscalar", _isscalar)
+
+
+# ------------------------------------------------------------------------------------------------ multilinear map
+def shape_multilinear(cell_type, xi):
+    """shape functions of the (multi)linear cube-type cell at reference point xi (numbers or ring elements)"""
+    ref = REF[base_type(cell_type)]
+    out = []
+    for ra in ref:
+        t = Fraction(1, 2 ** len(ra))
+        for k, r in enumerate(ra):
+            t = t * (1 + xi[k] * r)
+        out.append(t)
+    return out
+
+
+def shape_simplex(cell_type, xi):
+    return [1 - sum(xi)] + list(xi)
+
+
+def shape_linear(cell_type, xi):
+    ct = base_type(cell_type)
+    return shape_simplex(ct, xi) if ct in SIMPLEX else shape_multilinear(ct, xi)
+
+
+def jac_at(cell_type, X, xi):
+    """det(dX/dxi) of the multilinear map of a quad / hexahedron / line at the reference point xi"""
+    ct = base_type(cell_type)
+    ref = REF[ct]
+    dim = DIM[ct]
+    cols = []
+    for k in range(dim):
+        col = 0
+        for a, ra in enumerate(ref):
+            t = Fraction(ra[k], 2**dim)
+            for m in range(dim):
+                if m != k:
+                    t = t * (1 + xi[m] * ra[m])
+            col = col + X[a] * t
+        cols.append(col)
+    return det(cols)
